@@ -7,11 +7,15 @@ V = os.path.dirname(os.path.dirname(os.path.abspath(__file__)))
 EXTRA = {'C01-2A': ['C01', 'C15', 'C04'], 'C01-2B': ['C01', 'C16'], 'C03-2A': ['C03', 'C09'], 'C03-2B': ['C03', 'C06'], 'C05-2B': ['C05', 'C01'], 'C08-2A': ['C08', 'C07'],
          'C08-2B': ['C08', 'C11', 'C16', 'C01'], 'C07-2B': ['C07', 'C13'], 'C02-2A': ['C02', 'C16'], 'C02-2B': ['C02', 'C09'], 'C16-2A': ['C16', 'C15'], 'C16-2B': ['C16', 'C14', 'C01'],
          'C03-B': ['C03', 'C10', 'C16'], 'C02-B': ['C02', 'C05', 'C06'], 'C02-A': ['C02', 'C01'], 'C08-B': ['C08', 'C07'], 'C08-A': ['C08', 'C07'],
-         'C10-A': ['C10', 'C16'], 'C06-B': ['C06'], 'C04-A': ['C04', 'C15'], 'C16-A': ['C16', 'C10'], 'C01-A': ['C01', 'C14']}
+         'C10-A': ['C10', 'C16'], 'C06-B': ['C06'], 'C04-A': ['C04', 'C15'], 'C16-A': ['C16', 'C10'], 'C01-A': ['C01', 'C14'],
+         'C02-3B': ['C02', 'C13'], 'C16-3B': ['C16', 'C01', 'C03'], 'C03-3A': ['C03', 'C16'], 'C04-3B': ['C04', 'C07'], 'C07-3B': ['C07', 'C04'], 'C08-3A': ['C08', 'C07'], 'C08-3B': ['C08', 'C07'],
+         'C05-3A': ['C05', 'C13'], 'C06-3A': ['C06', 'C07'], 'C10-3A': ['C10', 'C15'], 'C01-3A': ['C01', 'C16'], 'C15-3B': ['C15', 'C13'], 'C04-3A': ['C04', 'C12'], 'C02-3A': ['C02', 'C10']}
 def imp():
-    for d in sorted(glob.glob('/tmp/seed/C??/[AB]')) + sorted(glob.glob('/tmp/seed2/C??/[AB]')):
-        prop = d.split('/')[3]; x = d.split('/')[4]; sid = '%s-%s%s' % (prop, '2' if d.startswith('/tmp/seed2') else '', x)
-        out = os.path.join(V, 'seeded', sid); os.makedirs(out, exist_ok=True)
+    for d in sorted(glob.glob('/tmp/seed/C??/[AB]')) + sorted(glob.glob('/tmp/seed2/C??/[AB]')) + sorted(glob.glob('/tmp/seed3/C??/[AB]')):
+        prop = d.split('/')[3]; x = d.split('/')[4]; sid = '%s-%s%s' % (prop, '2' if d.startswith('/tmp/seed2/') else '3' if d.startswith('/tmp/seed3/') else '', x)
+        out = os.path.join(V, 'seeded', sid)
+        if os.path.exists(os.path.join(out, 'meta.json')): continue          # keep what earlier rounds recorded
+        os.makedirs(out, exist_ok=True)
         for f in ('patch.diff', 'demo.py'):
             shutil.copy(os.path.join(d, f), os.path.join(out, f))
         meta = json.load(open(os.path.join(d, 'meta.json')))
